@@ -55,15 +55,19 @@ func (f *Loop) Call(s *slip.Scope, args slip.List, depth int) (result slip.Objec
 top:
 	for {
 		for _, form := range args {
-			if tr, ok := ns.Eval(form, d2).(*slip.ReturnResult); ok {
+			switch tr := ns.Eval(form, d2).(type) {
+			case *slip.ReturnResult:
 				if tr.Tag == nil {
 					result = tr.Result
 					break top
 				}
 				result = tr
 				break top
+			case *GoTo:
+				result = tr
+				break top
 			}
-			// Anything other than ReturnResult continues.
+			// Anything other than ReturnResult or GoTo continues.
 		}
 	}
 	return
